@@ -2,7 +2,7 @@
 //@properties C07 C08
 //@source store src/graph/store.rs
 //@source types src/graph/types.rs
-//@rules D2 R2
+//@rules D2 R2 R15
 #![feature(allocator_api)]
 #![allow(unused_imports, unused_variables, unused_mut, dead_code)]
 use vstd::prelude::*;
@@ -10,6 +10,7 @@ use std::collections::{HashMap, HashSet};
 verus!{
 global size_of usize == 8;
 //@include common/std_extra.rs
+//@include common/iter_wrappers.rs
 //@include common/hashmap_get_mut.rs
 // =====================================================================
 // prelude (assumed / stand-ins for what is not extracted)
